@@ -916,7 +916,7 @@ Section Api.
   Qed.
 End Api.
 
-(* ================= the recorded defect of the single-step clause (F17) ================= *)
+(* ================= the recorded defect of the single-step clause (F21) ================= *)
 (* T0=X, T1=A, T2=C(A), T3=B, T4=S(X, C, B), T5=target; offers A->T5, B->T5, C->T5 registered in this order.
    All three MRO distances from S are 0 (X, first in the MRO, provides none of them); B is incomparable to A and C,
    so CPython's insertion leaves the order A, B, C and the offer for the base type A is chosen. *)
@@ -1145,7 +1145,7 @@ Qed.
 
 (* for the executable model (edge order = CPython's sort on the code's comparator): a single-step answer has the
    smallest MRO distance among all succeeding single-offer chains — no hypothesis; only the specificity tie-break
-   is affected by F17 *)
+   is affected by F21 *)
 Lemma min_distance_first_exec c fuel o : adapt (env_of c) fuel = RAdapter [o] ->
   forall o', In o' (e_offers (env_of c)) -> single_candidate (env_of c) o' = true ->
     e_dist (env_of c) (e_src (env_of c)) (ofrom o) <= e_dist (env_of c) (e_src (env_of c)) (ofrom o').
@@ -1176,3 +1176,102 @@ Proof.
   destruct (adapt E fuel) eqn:Ha; try (rewrite (Hp eq_refl));
     repeat split; try (intros [= <-]; reflexivity); try discriminate; try reflexivity; try (intros [= <-]; congruence).
 Qed.
+
+(* ================= enough fuel: the search terminates ================= *)
+(* T k bounds the number of queue entries ever produced below a path that can still use k offers *)
+Fixpoint T (k : nat) : nat := match k with O => 1 | S k' => 1 + S k' * T k' end.
+
+Section Fuel.
+  Variable E : env.
+  Hypothesis order_perm : forall p l, Permutation (e_order E p l) l.
+  Notation n := (length (e_offers E)).
+
+  Definition weight (e : entry) : nat := T (n - length (snd e)).
+  Definition measure (q : list entry) : nat := fold_right (fun e a => weight e + a) 0 q.
+
+  Lemma measure_perm q q' : Permutation q q' -> measure q = measure q'.
+  Proof. unfold measure. induction 1; cbn [fold_right]; lia. Qed.
+
+  Lemma filter_and_length {A} (f g : A -> bool) l : length (filter (fun x => f x && g x) l) <= length (filter g l).
+  Proof. induction l as [|x l IH]; cbn; [lia|]. destruct (f x), (g x); cbn; lia. Qed.
+  Lemma filter_split_length {A} (f : A -> bool) l : length (filter f l) + length (filter (fun x => negb (f x)) l) = length l.
+  Proof. induction l as [|x l IH]; cbn; [lia|]. destruct (f x); cbn; lia. Qed.
+
+  (* a valid path leaves at most n - |p| applicable edges *)
+  Lemma edges_bound p : valid E p = true -> length (filter (usable E p) (e_offers E)) + length p <= n.
+  Proof.
+    intros Hv. destruct (valid_from_nodup E [] p Hv) as (Hnd & _ & Hin).
+    assert (length p <= length (filter (fun o => Model.mem o p) (e_offers E))) as H1.
+    { apply NoDup_incl_length; [exact Hnd|]. intros x Hx. apply filter_In. split; [apply Hin; exact Hx|].
+      unfold Model.mem. apply existsb_exists. exists x. split; [exact Hx|apply offer_eqb_refl]. }
+    pose proof (filter_split_length (fun o => Model.mem o p) (e_offers E)) as H2.
+    pose proof (filter_and_length (fun o => e_sub E (cur_of E p) (ofrom o)) (fun o => negb (Model.mem o p)) (e_offers E)) as H3.
+    unfold usable. lia.
+  Qed.
+
+  Lemma expand_measure k p es : forall q cnt,
+    match expand E k p es q cnt with
+    | (Some _, _, _) => True
+    | (None, q', _) => measure q' <= measure q + length es * T (n - S (length p))
+    end.
+  Proof.
+    induction es as [|o es IH]; intros q cnt; cbn [expand]; [cbn; lia|].
+    destruct (e_sub E (oto o) (e_target E)).
+    - destruct (succ E (p ++ [o])); [exact I|]. specialize (IH q cnt).
+      destruct (expand E k p es q cnt) as [[[np|] q'] c']; [exact I|]. cbn [length]. rewrite Nat.mul_succ_l. lia.
+    - destruct k as [[a m] c0].
+      specialize (IH (((S a, m + e_dist E (cur_of E p) (ofrom o), cnt), p ++ [o]) :: q) (S cnt)).
+      destruct (expand E (a, m, c0) p es _ (S cnt)) as [[[np|] q'] c']; [exact I|].
+      cbn [measure fold_right] in IH. unfold weight at 1 in IH. cbn [snd] in IH. rewrite app_length in IH. cbn [length] in *.
+      replace (n - (length p + 1)) with (n - S (length p)) in IH by lia. rewrite Nat.mul_succ_l. unfold measure in *. lia.
+  Qed.
+
+  Lemma T_unfold k : 0 < k -> T k = 1 + k * T (k - 1).
+  Proof. destruct k; [lia|]. intros _. cbn [T]. replace (S k - 1) with k by lia. reflexivity. Qed.
+
+  Theorem search_terminates fuel : forall q cnt, good_queue E q -> measure q < fuel -> search E fuel q cnt <> OutOfFuel.
+  Proof.
+    induction fuel as [|f IH]; intros q cnt Hq Hm; [lia|]. cbn [search].
+    destruct (pop_min q) as [[[k p] rest]|] eqn:Eq; [|discriminate].
+    pose proof (pop_min_in _ _ _ Eq) as P.
+    assert (good_queue E ((k, p) :: rest)) as Hq' by (unfold good_queue; rewrite P; exact Hq).
+    inversion Hq' as [|? ? [Hp Hk] Hrest]; subst. cbn in Hp, Hk.
+    set (es := e_order E p (filter (usable E p) (e_offers E))).
+    pose proof (expand_sound E order_perm k p Hp Hk es rest cnt (edges_ok E order_perm p) Hrest) as Snd.
+    pose proof (expand_measure k p es rest cnt) as M.
+    assert (length es + length p <= n) as Hes.
+    { unfold es. rewrite (Permutation_length (order_perm _ _)). apply edges_bound. exact Hp. }
+    rewrite <- (measure_perm _ _ P) in Hm. cbn [measure fold_right] in Hm. unfold weight at 1 in Hm. cbn [snd] in Hm.
+    destruct (expand E k p es rest cnt) as [[[np|] q'] cnt']; [discriminate|].
+    apply IH; [exact Snd|].
+    destruct (Nat.eq_dec (n - length p) 0) as [Hz|Hz].
+    - assert (length es = 0) by lia. rewrite H in M. cbn in M. rewrite Hz in Hm. cbn in Hm.
+      fold (measure rest) in Hm. lia.
+    - rewrite (T_unfold (n - length p)) in Hm by lia. fold (measure rest) in Hm.
+      replace (n - length p - 1) with (n - S (length p)) in Hm by lia.
+      assert (length es * T (n - S (length p)) <= (n - length p) * T (n - S (length p))) by (apply Nat.mul_le_mono_r; lia).
+      lia.
+  Qed.
+
+  (* fuel larger than T |offers| always suffices *)
+  Corollary adapt_search_terminates fuel : T n < fuel -> adapt_search E fuel <> OutOfFuel.
+  Proof.
+    intros H. apply search_terminates; [apply good_init|]. cbn. unfold weight. cbn. rewrite Nat.sub_0_r. lia.
+  Qed.
+  Corollary adapt_terminates fuel : T n < fuel -> adapt E fuel <> RFuel.
+  Proof.
+    intros H. unfold adapt. destruct (e_sub E (e_src E) (e_target E)); [discriminate|].
+    pose proof (adapt_search_terminates fuel H). destruct (adapt_search E fuel); congruence.
+  Qed.
+  Corollary run_api_terminates fuel a : T n < fuel -> run_api E fuel a <> OOutOfFuel.
+  Proof.
+    intros H. pose proof (adapt_terminates fuel H) as Ha. unfold run_api.
+    destruct a as [| | |[|[|m]]| | |[|[|v]]]; cbn [validate_adapt];
+      destruct (adapt E fuel); try congruence; try discriminate;
+      destruct (e_sub E (e_src E) (e_target E)); discriminate.
+  Qed.
+End Fuel.
+
+(* the fuel of the correspondence runs suffices for every problem with at most 7 offers *)
+Lemma default_fuel_enough : T 7 < default_fuel.
+Proof. vm_compute. repeat constructor. Qed.
